@@ -166,10 +166,17 @@ def loop (c : Cfg) (corr : List (Pair σ ν) → List ν) (sel : Int) (tol : σ)
 /-- the return expression `converged_eigenvalues().cast<Index>().head(min(nev, size)).sum()` -/
 def returnValue (c : Cfg) (s : St σ ν) : Nat := (s.conv.take c.nev).count true
 
-/-- `compute_with_guess(initial_space, selection, maxit, tol)` -/
+/-- the first two statements of `compute_with_guess`: `m_ritz_pairs = RitzPairs<Scalar>(); m_info = CompInfo::NotComputed;`.
+    A default-constructed `RitzPairs` (`RitzPairs() = default`, no member has an initialiser) holds five EMPTY members:
+    `m_values` (size 0), `m_small_vectors`, `m_vectors`, `m_residues` (0 × 0) — no pair — and `m_root_converged` (size 0) — no flag. -/
+def resetResults (s : St σ ν) : St σ ν := { s with pairs := [], conv := [], info := .notComputed }
+
+/-- `compute_with_guess(initial_space, selection, maxit, tol)`: the statements before the loop, in source order, are
+    `m_ritz_pairs = RitzPairs<Scalar>(); m_info = CompInfo::NotComputed; m_search_space.initialize_search_space(initial_space);
+    niter_ = 0;` — every result member is reset before the first trip round the loop -/
 def computeWithGuess (c : Cfg) (corr : List (Pair σ ν) → List ν) (guess : List ν) (sel : Int) (maxit : Nat) (tol : σ)
     (s : St σ ν) : St σ ν × Nat :=
-  let s0 := { initializeSearchSpace guess s with niter := 0, sizes := [] }
+  let s0 := { initializeSearchSpace guess (resetResults s) with niter := 0, sizes := [] }
   let s1 := loop K c corr sel tol maxit maxit s0
   (s1, returnValue c s1)
 
